@@ -64,7 +64,11 @@ def merge(a, b, sel=None):
     for k in set(a.heap) | set(b.heap):
         ha, hb = a.heap.get(k), b.heap.get(k)
         if ha is None or hb is None:
-            out.heap[k] = ha or hb
+            # a field not touched yet on one side still has its initial (lazily named) arrays there
+            present = ha or hb
+            init = [z3.Const("H0_%s_%s_%d" % (k[0], k[1], i), x.sort()) for i, x in enumerate(present)]
+            ha, hb = (ha or init), (hb or init)
+            out.heap[k] = [if_(c, x, y) for x, y in zip(ha, hb)]
         elif ha is hb:
             out.heap[k] = ha
         else:
@@ -82,7 +86,7 @@ class LoopSpec:
 class Spec:
     def __init__(self, qual, params, returns="none", requires=(), ensures=(), aux=(), raises=None,
                  modifies=(), loops=None, inline=False, locals=None, pure=False, hints=(),
-                 trusted=False, fresh=(), cases=None, at=None, ghost=None, ghost_calls=None, reveal=()):
+                 trusted=False, fresh=(), cases=None, at=None, ghost=None, ghost_calls=None, reveal=(), bind=None):
         self.qual = qual
         self.params = params            # ordered dict name -> kind text
         self.returns = returns
@@ -101,6 +105,7 @@ class Spec:
         self.ghost = ghost or {}        # ghost parameters (name -> kind text)
         self.ghost_calls = ghost_calls or {}   # callee short name -> {ghost param -> expression in the caller}
         self.cases = cases
+        self.bind = bind or {}          # function-valued parameter -> qualified name of the function it is fixed to
 
 
 class Registry:
@@ -114,12 +119,20 @@ class Registry:
         self.axioms = []         # callables () -> [z3 Bool]
         self.builtins = {}       # dotted name -> handler(ex, st, args, node) -> Val
         self.aliases = {}        # bare name -> qual (import resolution overrides)
-        self.subclasses = {}     # class -> base class
+        self.subclasses = dict(index.bases)     # class -> base class (from the source; contracts may add)
         self.auto_inline = {"tracklib.core.utils:isnan"}   # contract-less functions that may be inlined
         self.ghost_ok = set()
+        self.variants = {}       # qual -> [Spec] (alternative contracts by argument kind)
 
-    def add(self, spec):
-        self.specs[spec.qual] = spec
+    def add(self, spec, variant=None):
+        """`variant`: a second contract of the same function for arguments of other kinds (a list where the
+        first contract takes a float, ...).  Stored under 'qual@variant'; a call site uses the first contract
+        whose parameter kinds accept the actual arguments."""
+        key = spec.qual if variant is None else "%s@%s" % (spec.qual, variant)
+        spec.key = key
+        self.specs[key] = spec
+        if variant is not None:
+            self.variants.setdefault(spec.qual, []).append(spec)
         return spec
 
     def field(self, cls, name, kind):
@@ -134,6 +147,7 @@ class Ctx:
         self.reg = registry
         self.prefix = prefix
         self.hyps = []
+        self.hyp_pc = {}        # index in hyps -> path condition guarding the hypothesis (pruning, verify.package)
         self.hyp_defs = {}      # index in hyps -> set of symbol names the hypothesis *defines* (relevance filter)
         self.obls = []
         self.dropped = []
@@ -148,6 +162,8 @@ class Ctx:
     def assume(self, st, fact, defines=None):
         if z3.is_true(fact):
             return
+        if not z3.is_true(st.pc):
+            self.hyp_pc[len(self.hyps)] = st.pc
         self.add_hyp(implies(st.pc, fact), defines)
 
     def add_hyp(self, fact, defines=None):
@@ -214,7 +230,30 @@ class Executor:
                 raise OutOfSubset("field %s.%s not declared in the class model" % key)
             st.heap[key] = [z3.Const("H0_%s_%s_%d" % (cls, field, i), z3.ArraySort(z3.IntSort(), s))
                             for i, s in enumerate(flat(k))]
+            self.assume_closed_heap(key, k, st.heap[key])
         return st.heap[key]
+
+    def assume_closed_heap(self, key, k, arrs):
+        """A-ALLOC for the initial heap: every reference stored in a field at entry denotes an object allocated
+        before the call (0 <= ref < alloc0)."""
+        ctx = self.ctx
+        done = ctx.__dict__.setdefault("closed_heap", {})
+        ent = done.get(key)
+        if ent is not None and ent[0] < len(ctx.hyps) and ctx.hyps[ent[0]] is ent[1]:
+            return
+        a0 = z3.Int("alloc0")
+        r, i = z3.Int(uid("chr")), z3.Int(uid("chi"))
+        fact = None
+        if isinstance(k, KRef):
+            fact = z3.ForAll([r], and_(z3.Select(arrs[0], r) >= 0, z3.Select(arrs[0], r) < a0))
+        elif isinstance(k, KList) and isinstance(k.elem, KRef):
+            e = z3.Select(z3.Select(arrs[1], r), i)
+            fact = z3.ForAll([r, i], and_(e >= 0, e < a0))
+        elif isinstance(k, KOpt) and isinstance(k.elem, KRef):
+            fact = z3.ForAll([r], and_(z3.Select(arrs[1], r) >= 0, z3.Select(arrs[1], r) < a0))
+        if fact is not None:
+            done[key] = (len(ctx.hyps), fact)
+            ctx.hyps.append(fact)
 
     def owner_class(self, cls, field):
         """Find the class (cls or a declared base) that declares `field`."""
@@ -231,7 +270,23 @@ class Executor:
             raise OutOfSubset("field %s.%s not declared in the class model" % (obj.kind.cls, field))
         k = self.ctx.reg.fields[(cls, field)]
         arrs = self.heap_arrays(st, cls, field)
-        return Val(k, [z3.Select(a, obj.terms[0]) for a in arrs])
+        v = Val(k, [z3.Select(a, obj.terms[0]) for a in arrs])
+        if isinstance(k, KDict):
+            self.assume_dict_wf(v)
+        return v
+
+    def assume_dict_wf(self, v):
+        """Every dict value satisfies dicts.wf by construction of the dict operations (encoding invariant)."""
+        from . import dicts
+        ctx = self.ctx
+        cache = ctx.__dict__.setdefault("dictwf_cache", {})
+        key = tuple(t.get_id() for t in v.terms)
+        ent = cache.get(key)
+        if ent is not None and ent[0] < len(ctx.hyps) and ctx.hyps[ent[0]] is ent[1]:
+            return
+        fact = dicts.wf(v)
+        cache[key] = (len(ctx.hyps), fact, v)
+        ctx.hyps.append(fact)
 
     def write_field(self, st, obj, field, val, node=None):
         cls = self.owner_class(obj.kind.cls, field)
@@ -337,6 +392,11 @@ class Executor:
             return Val(KList(NONE), [z3.IntVal(0)], py="emptylist")
         return list_literal([self.eval(e, st) for e in node.elts])
 
+    def e_Dict(self, node, st):
+        if node.keys:
+            self.unsupported(node, "non-empty dict literal")
+        return Val(NONE, [], py="emptydict")
+
     def e_UnaryOp(self, node, st):
         v = self.eval(node.operand, st)
         if isinstance(node.op, ast.Not):
@@ -352,7 +412,15 @@ class Executor:
 
     OPS = {ast.Add: "+", ast.Sub: "-", ast.Mult: "*", ast.Div: "/", ast.FloorDiv: "//", ast.Mod: "%", ast.Pow: "**"}
 
+    DUNDER = {ast.Add: "__add__", ast.Sub: "__sub__", ast.Mult: "__mul__", ast.Mod: "__mod__", ast.Gt: "__gt__",
+              ast.Lt: "__lt__", ast.Div: "__truediv__"}
+
     def binop(self, op, a, b, st, node):
+        if isinstance(a.kind, KRef) and type(op) in self.DUNDER:
+            fi = self.find_method(a.kind.cls, self.DUNDER[type(op)])
+            if fi is None:
+                raise OutOfSubset("no %s on %s" % (self.DUNDER[type(op)], a.kind.cls))
+            return self.call_function(fi, [a, b], {}, st, node)
         if type(op) not in self.OPS:
             if isinstance(op, ast.BitAnd) and isinstance(a.kind, KBool) and isinstance(b.kind, KBool):
                 return vbool(and_(a.terms[0], b.terms[0]))
@@ -417,8 +485,8 @@ class Executor:
             i = z3.Int(uid("in"))
             return z3.Exists([i], and_(i >= 0, i < n, compare("==", list_get(cont, i), x)))
         if isinstance(cont.kind, KDict):
-            k, _ = coerce(x, cont.kind.k)
-            return z3.Select(cont.terms[0], k.terms[0])
+            from . import dicts
+            return dicts.contains(cont, x)
         self.unsupported(node, "in on %r" % (cont.kind,))
 
     def e_BoolOp(self, node, st):
@@ -460,6 +528,10 @@ class Executor:
                 fi = self.find_method(base, mangle(node.attr, self.fi.cls))
                 if fi is not None:
                     return Val(FUNC, [], py=("func", fi))
+                if (base, node.attr) in idx.singletons:
+                    # `NAME = Cls()` in a class body: the one instance, a reference below every allocated one
+                    names = sorted(idx.singletons)
+                    return vref(z3.IntVal(-1000 - names.index((base, node.attr))), idx.singletons[(base, node.attr)])
                 raise OutOfSubset("class attribute %s.%s" % (base, node.attr))
             if base in ("math", "np", "numpy", "sys"):
                 if node.attr == "pi":
@@ -472,6 +544,8 @@ class Executor:
         obj = self.eval(node.value, st)
         if isinstance(obj.kind, KFunc) and obj.py and obj.py[0] == "module":
             return Val(FUNC, [], py=("builtin", obj.py[1] + "." + node.attr))
+        if isinstance(obj.kind, KFunc) and obj.py and obj.py[0] == "func" and node.attr == "__name__":
+            return strings.lit(obj.py[1].name)
         if isinstance(obj.kind, KRef):
             return self.read_field(st, obj, mangle(node.attr, self.fi.cls))
         if isinstance(obj.kind, KArr2) and node.attr == "shape":
@@ -535,10 +609,10 @@ class Executor:
                 return arr2_get(base, i, j)
             self.unsupported(node, "array subscript")
         if isinstance(base.kind, KDict):
-            k, _ = coerce(self.eval(sl, st), base.kind.k)
-            self.check(st, "KeyError", z3.Select(base.terms[0], k.terms[0]), node)
-            nv = len(flat(base.kind.v))
-            return Val(base.kind.v, [z3.Select(a, k.terms[0]) for a in base.terms[1:1 + nv]])
+            from . import dicts
+            key = self.eval(sl, st)
+            self.check(st, "KeyError", dicts.contains(base, key), node)
+            return dicts.get(base, key)
         if isinstance(base.kind, KRef):
             fi = self.find_method(base.kind.cls, "__getitem__")
             if fi is not None:
@@ -613,12 +687,20 @@ class Executor:
                     self.bound[comp.target.id] = vint(v)
                     vars_.append(v)
                     guards.append(and_(v >= lo, v < hi))
+                elif isinstance(it, ast.Call) and isinstance(it.func, ast.Name) and it.func.id == "refs":
+                    v = z3.Int(uid(comp.target.id))
+                    self.bound[comp.target.id] = vref(v, it.args[0].id)
+                    vars_.append(v)
+                elif isinstance(it, ast.Name) and it.id == "strs":
+                    v = z3.Int(uid(comp.target.id))
+                    self.bound[comp.target.id] = Val(STR, [v])
+                    vars_.append(v)
                 elif isinstance(it, ast.Name) and it.id in ("ints", "reals"):
                     v = z3.Int(uid(comp.target.id)) if it.id == "ints" else z3.Real(uid(comp.target.id))
                     self.bound[comp.target.id] = vint(v) if it.id == "ints" else vfloat(v)
                     vars_.append(v)
                 else:
-                    raise OutOfSubset("quantifier domain must be range(..), ints or reals")
+                    raise OutOfSubset("quantifier domain must be range(..), ints, reals, strs or refs(Class)")
                 for cond in comp.ifs:
                     guards.append(truth(self.eval(cond, st)))
             body = truth(self.eval(gen.elt, st))
@@ -647,9 +729,29 @@ class Executor:
             c = self.ctx.reg.subclasses.get(c)
         return None
 
+    def pick_variant(self, fi, spec, args, kwargs, st):
+        alts = self.ctx.reg.variants.get(fi.qual)
+        if not alts:
+            return spec
+        for cand in ([spec] if spec is not None else []) + alts:
+            try:
+                formals = self.bind_args(fi, args, kwargs, st)
+                for n, ktxt in cand.params.items():
+                    if n in formals:
+                        coerce(formals[n], self.kind_of(ktxt))
+                for n, q in cand.bind.items():
+                    v = formals.get(n)
+                    if v is None or not (v.py and v.py[0] == "func" and v.py[1].qual == q):
+                        raise OutOfSubset("bound function differs")
+                self.check_defaults(fi, cand, args, kwargs, formals, st)
+                return cand
+            except OutOfSubset:
+                continue
+        return spec
+
     def call_function(self, fi, args, kwargs, st, node):
         """Call a repository function: by contract if it has one (and is not inline), else inline."""
-        spec = self.ctx.reg.spec_for(fi)
+        spec = self.pick_variant(fi, self.ctx.reg.spec_for(fi), args, kwargs, st)
         if spec is not None and not spec.inline:
             return self.call_by_contract(fi, spec, args, kwargs, st, node)
         if spec is None and fi.qual not in self.ctx.reg.auto_inline:
@@ -677,6 +779,25 @@ class Executor:
             if n not in out:
                 raise OutOfSubset("missing argument %s for %s" % (n, fi.qual))
         return out
+
+    def check_defaults(self, fi, spec, args, kwargs, formals, st):
+        """A parameter the contract does not mention is fixed to its default: a call passing anything else is
+        outside the contract."""
+        a = fi.node.args
+        names = [x.arg for x in a.args]
+        passed = set(names[:len(args)]) | set(kwargs)
+        dflt = dict(zip(names[len(names) - len(a.defaults):], a.defaults))
+        for n in passed:
+            if n in spec.params or n in spec.bind:
+                continue
+            if n not in dflt:
+                raise OutOfSubset("%s: argument %s is not covered by the contract" % (fi.qual, n))
+            dv = Executor(self.ctx, fi, None).eval(dflt[n], State({}, st.heap, st.pc))
+            v = formals[n]
+            same = type(dv.kind) is type(v.kind) and len(dv.terms) == len(v.terms) and \
+                all(z3.is_true(z3.simplify(x == y)) for x, y in zip(dv.terms, v.terms))
+            if not same:
+                raise OutOfSubset("%s: argument %s differs from the default value the contract fixes" % (fi.qual, n))
 
     def call_inline(self, fi, spec, args, kwargs, st, node):
         if self.ctx.depth > 6:
@@ -722,6 +843,7 @@ class Executor:
         if spec.trusted:
             self.ctx.trusted_used.add(fi.qual)
         formals = self.bind_args(fi, args, kwargs, st)
+        self.check_defaults(fi, spec, args, kwargs, formals, st)
         for n, ktxt in spec.params.items():
             if n in formals:
                 formals[n], sc = coerce(formals[n], self.kind_of(ktxt))
@@ -862,6 +984,19 @@ class Executor:
 
     def s_Return(self, node, st):
         v = self.eval(node.value, st) if node.value is not None else vnone()
+        if self.spec is not None and self.spec.returns is not None and not self.spec.inline:
+            # every returned value is converted to the declared return kind here, so that paths returning values
+            # of unrelated kinds (a float on one branch, an object on another) need not be merged: a path whose
+            # value cannot have the declared kind must be unreachable under the contract's precondition
+            rk = self.kind_of(self.spec.returns)
+            try:
+                if v.py == "emptylist" and isinstance(rk, KList):
+                    v = list_empty(rk.elem)
+                v, sc = coerce(v, rk)
+                self.check(st, "return-kind", sc, node)
+            except OutOfSubset:
+                self.check(st, "return-kind-unreachable", FALSE, node)
+                return Outcomes()
         st.vars["$ret"] = v
         return Outcomes(ret=st)
 
@@ -947,7 +1082,12 @@ class Executor:
     def assign(self, target, v, st, node):
         if isinstance(target, ast.Name):
             dk = self.declared_local(target.id)
-            if v.py == "emptylist":
+            if v.py == "emptydict":
+                if dk is None:
+                    raise OutOfSubset("%s: kind of empty dict %s must be declared (spec.locals)" % (self.fi.qual, target.id))
+                from . import dicts
+                v = dicts.empty(dk)
+            elif v.py == "emptylist":
                 if dk is None:
                     old = st.vars.get(target.id)
                     if old is not None and old is not POISON and isinstance(old.kind, KList):
@@ -983,6 +1123,10 @@ class Executor:
             if v.py == "emptylist":
                 v = list_empty(self.ctx.reg.fields[(self.owner_class(obj.kind.cls, mangle(target.attr, self.fi.cls)),
                                                      mangle(target.attr, self.fi.cls))].elem)
+            if v.py == "emptydict":
+                from . import dicts
+                v = dicts.empty(self.ctx.reg.fields[(self.owner_class(obj.kind.cls, mangle(target.attr, self.fi.cls)),
+                                                      mangle(target.attr, self.fi.cls))])
             self.write_field(st, obj, mangle(target.attr, self.fi.cls), v, node)
             return
         if isinstance(target, ast.Subscript):
@@ -1017,15 +1161,10 @@ class Executor:
         self.unsupported(node, "assignment target")
 
     def dict_set(self, d, key, v, st, node):
-        k, _ = coerce(key, d.kind.k)
-        v, sc = coerce(v, d.kind.v)
+        from . import dicts
+        nd, sc = dicts.set_(d, key, v)
         self.check(st, "store-kind", sc, node)
-        nv = len(flat(d.kind.v))
-        dom, vals, olen, oarr = d.terms[0], d.terms[1:1 + nv], d.terms[1 + nv], d.terms[2 + nv]
-        present = z3.Select(dom, k.terms[0])
-        return Val(d.kind, [z3.Store(dom, k.terms[0], TRUE)] +
-                   [z3.Store(a, k.terms[0], t) for a, t in zip(vals, v.terms)] +
-                   [if_(present, olen, olen + 1), if_(present, oarr, z3.Store(oarr, olen, k.terms[0]))])
+        return nd
 
     def s_Delete(self, node, st):
         for t in node.targets:
@@ -1043,7 +1182,16 @@ class Executor:
         return Outcomes(normal=st)
 
     def s_Try(self, node, st):
-        self.unsupported(node, "try")
+        """try: BODY except IndexError: HANDLER  --  BODY is executed with its IndexError-freedom as obligations
+        (every subscript and every contracted call), so the handler is unreachable and is dropped."""
+        if node.orelse or node.finalbody:
+            self.unsupported(node, "try/else/finally")
+        for h in node.handlers:
+            if not (isinstance(h.type, ast.Name) and h.type.id == "IndexError"):
+                self.unsupported(node, "except clause other than IndexError")
+            self.ctx.dropped.append("%s:%d except IndexError handler (unreachable: IndexError-freedom of the try body is "
+                                    "proved as safety obligations)" % (self.fi.path, h.lineno))
+        return self.exec_block(node.body, st)
 
     # --- loops
     def s_For(self, node, st):
